@@ -47,11 +47,19 @@ func runSolver(ctx context.Context, name string, file string, timeout time.Durat
 	case "z3":
 		cmd = exec.CommandContext(ctx, "z3", fmt.Sprintf("-T:%d", secs), file)
 	case "cvc5":
-		cmd = exec.CommandContext(ctx, "cvc5", fmt.Sprintf("--tlimit=%d", secs*1000), file+".cvc5")
+		cmd = exec.CommandContext(ctx, "cvc5", "--lang", "smt2", fmt.Sprintf("--tlimit=%d", secs*1000), file+".cvc5")
 	}
 	out, _ := cmd.CombinedOutput()
 	s := string(out)
-	first := strings.TrimSpace(strings.SplitN(s, "\n", 2)[0])
+	first := ""
+	for _, ln := range strings.Split(s, "\n") {
+		t := strings.TrimSpace(ln)
+		if t == "" || strings.HasPrefix(t, "WARNING") || strings.HasPrefix(t, "(warning") {
+			continue
+		}
+		first = t
+		break
+	}
 	st := "unknown"
 	switch first {
 	case "sat", "unsat":
@@ -73,13 +81,17 @@ var queryMu sync.Mutex
 
 // solveQuery races the solvers; first sat/unsat wins.
 func solveQuery(q string, quick time.Duration, full time.Duration) solverRes {
+	return solveQueryL(q, "ALL", quick, full)
+}
+
+func solveQueryL(q string, logic string, quick time.Duration, full time.Duration) solverRes {
 	queryMu.Lock()
 	queryCtr++
 	id := queryCtr
 	queryMu.Unlock()
 	file := filepath.Join(tmpDir, fmt.Sprintf("q%d.smt2", id))
 	os.WriteFile(file, []byte(q), 0o644)
-	os.WriteFile(file+".cvc5", []byte("(set-option :produce-models true)\n(set-logic ALL)\n"+q), 0o644)
+	os.WriteFile(file+".cvc5", []byte("(set-option :produce-models true)\n(set-logic "+logic+")\n"+q), 0o644)
 	defer os.Remove(file)
 	defer os.Remove(file + ".cvc5")
 	start := time.Now()
@@ -158,7 +170,11 @@ func discharge(rs []*FnResult, par int, quick, full time.Duration) {
 		go func(i int) {
 			defer wg.Done()
 			defer func() { <-sem }()
-			r := solveQuery(queries[i], quick, full)
+			logic := "ALL"
+			if !jobs[i].o.HasQuant {
+				logic = "QF_AUFBV"
+			}
+			r := solveQueryL(queries[i], logic, quick, full)
 			o := jobs[i].o
 			o.Status = r.status
 			o.Solver = r.solver
